@@ -43,12 +43,15 @@ func (h *H[T]) C10(rc *runCtx) *Violation {
 	prog, sim := rc.prog, rc.sim
 	a := drawAllocator(prog, rc.b)
 	env := drawPoolEnv(rc)
-	nOps := 1 + prog.Draw(rc.b.MaxOps)
+	// The history continues with probability 1-1/cont after every operation
+	// (a truncated tape simply stops): mean length = cont.
+	nOps := rc.b.MaxOps
 	if a.Channels*a.Capacity > 1024 && nOps > 60 {
 		nOps = 60
 	}
+	cont := []int{8, 3, 24, 64}[prog.Draw(4)]
 	maxOut := 1 + prog.Draw(rc.b.MaxOut)
-	rc.cfg = spA("alloc=%+v ops=%d maxout=%d %s", a, nOps, maxOut, env)
+	rc.cfg = spA("alloc=%+v meanops=%d maxout=%d %s", a, cont, maxOut, env)
 	sim.Tracef("config: T=%s %s", h.name, rc.cfg)
 
 	pa := signal.PoolAlloc[T](a)
@@ -217,6 +220,11 @@ func (h *H[T]) C10(rc *runCtx) *Violation {
 	}
 
 	for op := 0; op < nOps; op++ {
+		prog.Begin()
+		if op > 0 && !prog.More(cont) {
+			prog.End()
+			break
+		}
 		if sim.Sched.Coin(sim.GCNum, simrt.FaultDen) {
 			sim.GC()
 			if sim.Available() == 0 {
@@ -227,6 +235,7 @@ func (h *H[T]) C10(rc *runCtx) *Violation {
 		switch {
 		case len(out) == 0 || (kind == 0 && len(out) < maxOut):
 			if v := doGet(); v != nil {
+				prog.End()
 				return v
 			}
 		case kind == 1 || kind == 2:
@@ -257,9 +266,11 @@ func (h *H[T]) C10(rc *runCtx) *Violation {
 				rc.probes[pGrownAppend]++
 			}
 			if v != nil {
+				prog.End()
 				return v
 			}
 		}
+		prog.End()
 	}
 	// Epilogue: return everything, then draw buffers again — reuse is the
 	// path the pool exists for.
